@@ -1,12 +1,28 @@
 #!/bin/sh
-# Build the framework offline from files on disk: constants from /repo, all Lean theorems, all drivers.
-set -e
-cd "$(dirname "$0")"
+# Build the framework offline from files on disk: constants from /repo, then the theorems and the
+# driver of every property claimed in MANIFEST.json.  A target that fails to build is reported here
+# and again (as a broken obligation) by that property's own check; it does not stop the others.
+cd "$(dirname "$0")" || exit 1
 export PYTHONHASHSEED=0 PYTHONDONTWRITEBYTECODE=1
 mkdir -p .work evidence/replays
-/venv/bin/python harness/extract.py
-/venv/bin/python harness/gen_lake.py
-cd lean
-DRVS=$(ls Drv/*.lean | sed 's#Drv/\(.*\)\.lean#drv_\1#' | tr 'A-Z' 'a-z')
-lake build Tahoe $DRVS
-echo "setup ok"
+/venv/bin/python harness/extract.py || echo "setup: extractor reported a problem (checks will report it per property)"
+/venv/bin/python harness/gen_lake.py >/dev/null || exit 1
+IDS=$(/venv/bin/python -c "import json;print(' '.join(c['property_id'] for c in json.load(open('MANIFEST.json'))['checks']))")
+cd lean || exit 1
+TARGETS=""
+for id in $IDS; do
+  lc=$(echo "$id" | tr 'A-Z' 'a-z')
+  TARGETS="$TARGETS Tahoe.Props.$id drv_$lc"
+done
+if lake build $TARGETS; then
+  echo "setup ok: built$TARGETS"
+  exit 0
+fi
+echo "setup: combined build failed; building per property"
+fail=""
+for id in $IDS; do
+  lc=$(echo "$id" | tr 'A-Z' 'a-z')
+  lake build Tahoe.Props.$id drv_$lc >/dev/null 2>&1 || fail="$fail $id"
+done
+echo "setup done; properties whose Lean targets do not build:${fail:- none}"
+exit 0
